@@ -1,9 +1,11 @@
 """C10 - aggregation outputs leave no witness freedom (gadget part; wrapper part added by PrivateBatch/PublicBatch)."""
 GROUP = "gadgets"
-EXTRACTS = ["Gadgets"]
 PROP_FILES = ["C10_gadgets"]
-HARNESS = [("gadgets", ["lt", "sortsmall", "digesteq"])]
-FIDS = [3003, 3004, 3102, 3005, 3105]
+HARNESS = [("gadgets", ["lt", "sortsmall", "digesteq"]), ("wrappers", ["priv", "pub"])]
+FIDS = [3003, 3004, 3102, 3005, 3105, 602, 605, 1202, 1205]
+GROUP_OF_FID = {602: "wrappers", 605: "wrappers", 1202: "wrappers", 1205: "wrappers"}
+EXTRACTS = ["Gadgets", "Wrappers"]
+EXTRA_BINS = ["hashd"]
 LEVEL = "proof"
 RULE = ("hint-override runs of the REAL gadget circuits (see C30/C31 rules): for each overridden generator (EqualityGenerator, "
         "LowHighGenerator, BaseSplitGenerator by occurrence) the real circuit's accept/reject and public output must equal the Coq "
@@ -13,4 +15,4 @@ ASSUMPTIONS = ["as C30"]
 
 
 def nontrivial(case, model_out):
-    return case.fid in ("3003", "3102") and len(case.segs.split(";")) > 1
+    return case.fid in ("3003", "3102", "602", "1202")
